@@ -283,7 +283,7 @@ func specialTTYMirror(c *specialCtx) {
 			// cursor: shown at the inner position, or hidden
 			showO := snapO.ViewFlags[int(te.VFShowCursor)]
 			inside := si.CX >= rx && si.CX < rx2 && si.CY >= ry && si.CY < ry2
-			// the frontend shows the cursor until the inner terminal hides it (?25l); Attach shows it again
+			// the frontend shows the cursor until the inner terminal hides it (?25l)
 			showI := fwd.show
 			if showI && inside && !showO {
 				c.violation("tty-cursor", fmt.Sprintf("%s: inner cursor (%d,%d) is visible and inside %+v but the outer cursor is hidden", where, si.CX, si.CY, region),
@@ -322,7 +322,7 @@ func specialTTYMirror(c *specialCtx) {
 			cs.Items = cs.Items[len(cs.Items)/2:]
 		}
 		tty.Attach(region)
-		fwd.show = true
+		// the cursor keeps the visibility the inner terminal last asked for (also while detached)
 		if !compare("attach") {
 			return
 		}
